@@ -197,7 +197,7 @@ func c15(ctx *core.Ctx) {
 	ctx.Rule("generated call sequences: first call in {none, WriteHeader, WriteEntity (JSON/XML by Accept, also the 406 dead end), WriteHeaderAndEntity, WriteAsJson/Xml, WriteHeaderAndJson/Xml, WriteJson, WriteError (err / nil), WriteErrorString, WriteServiceError} with payload {small, 500-byte, nil, unmarshalable} and pretty-print on/off (package switch or Response.PrettyPrint), then 0-5 Write calls of {0,1,10,300} bytes; without coding and with gzip/deflate in between. Faults: the underlying writer accepts exactly k bytes then fails every call, k enumerated over EVERY byte position of the fault-free output (call boundaries and inside calls). A trailing container filter reads StatusCode()/ContentLength(). Oracle: StatusCode() == status the underlying writer received (200 if none); without coding ContentLength() == bytes accepted and the call during which the writer first failed returns the injected error; with coding (fault-free) ContentLength() == plaintext length == decoded length. Non-trivial = a run with >= 1 body byte or a non-200 status; distinct by (first call, value, pretty, coding, fault class: none/at-boundary/inside-call, failing call kind).")
 	ctx.Assume("at most one status-setting call, first in the sequence (as the property states)")
 	defer func() { restful.PrettyPrintResponses = true }()
-	seqs := ctx.N(500, 10000)
+	seqs := ctx.N(500, 60000)
 	statuses := []int{200, 201, 202, 400, 404, 500}
 	for si := 0; si < seqs; si++ {
 		if ctx.Skip(si) {
